@@ -23,7 +23,7 @@ theorem quiet_handleResult (s : State) (m v : Nat) : Quiet s (handleResult s m v
     · exact WLe.of_eq rfl rfl rfl
     · exact WLe.of_eq rfl rfl rfl
 
-theorem quiet_handleSubmit (s : State) (c : Nat) (em : List (Dest × Msg)) : Quiet s (handleSubmit s c em) :=
+theorem quiet_handleSubmit (s : State) (c k : Nat) (em : List (Dest × Msg)) : Quiet s (handleSubmit s c k em) :=
   WLe.of_eq rfl rfl rfl
 
 theorem quiet_clientGone (t : Topo) {s : State} (h0 : s.gone 0 = false) (c : Nat) (em : List (Dest × Msg)) :
@@ -35,14 +35,19 @@ theorem quiet_clientGone (t : Topo) {s : State} (h0 : s.gone 0 = false) (c : Nat
 
 theorem quiet_handleRequest (t : Topo) {s : State} (h0 : s.gone 0 = false) (c m : Nat)
     (em : List (Dest × Msg)) : Quiet s (handleRequest t s c m em) := by
+  have hbad : Quiet s (clientGone t (s.put 0 [(.client c, .error)]) c em) :=
+    (quiet_put s 0 _).trans (quiet_clientGone t (by simpa [State.gone] using h0) c em)
   unfold handleRequest
+  simp only
   split
+  · exact hbad
   · split
     · split
-      · exact WLe.of_eq rfl rfl rfl
-      · exact WLe.of_eq rfl rfl rfl
-    · exact (quiet_put s 0 _).trans (quiet_clientGone t (by simpa [State.gone] using h0) c em)
-  · exact (quiet_put s 0 _).trans (quiet_clientGone t (by simpa [State.gone] using h0) c em)
+      · split
+        · exact WLe.of_eq rfl rfl rfl
+        · exact WLe.of_eq rfl rfl rfl
+      · exact hbad
+    · exact hbad
 
 theorem quiet_syslog {s s' : State} (h : Quiet s s') (f : Nat → Nat) : Quiet s { s' with syslog := f } :=
   h.trans (WLe.of_eq rfl rfl rfl)
@@ -187,7 +192,7 @@ theorem recvClient_quiet {t : Topo} {s s' : State} {c : Nat} {em : List (Dest ×
     simp only at h
     split at h
     · cases h; exact hq0.trans (quiet_clientGone t hp0 c em)
-    · cases h; exact hq0.trans (quiet_handleSubmit _ c em)
+    · cases h; exact hq0.trans (quiet_handleSubmit _ c _ em)
     · cases h; exact hq0.trans (quiet_handleRequest t hp0 c _ em)
     · split at h <;> cases h
       · exact hq0.trans (wle_systemError t hp0)
